@@ -258,9 +258,8 @@ theorem kelvin_celsius_value (x : Rat) :
 
 /-- every coefficient of the table is a non-zero fraction and every temperature unit carries a
     mutually inverse pair of functions -/
-theorem table_well_formed : ∀ u ∈ units, (toQ u.conv).WellFormed := by
-  have h : units.all (fun u => convOk u.conv) = true := by decide +kernel
-  exact all_wf_of_check units h
+theorem table_well_formed : ∀ u ∈ units, (toQ u.conv).WellFormed :=
+  all_wf_of_check units units_all_convOk
 
 theorem coefficients_positive : ∀ u ∈ units, coefPositive u.conv = true := by
   have h : units.all (fun u => coefPositive u.conv) = true := by decide +kernel
@@ -272,20 +271,13 @@ theorem coefficient_bits_correctly_rounded : ∀ u ∈ units, coefBitsOk u.conv 
   have h : units.all (fun u => coefBitsOk u.conv) = true := by decide +kernel
   exact fun u hu => List.all_eq_true.mp h u hu
 
-private theorem getD_wf (q : List Nat) (j : Nat) (h : resolveCodes q = .ok j) :
-    (toQ (units.getD j default).conv).WellFormed := by
-  obtain ⟨u, hu, _⟩ := resolve_ok_sound units q j h
-  have : units.getD j default = u := by simp [List.getD, hu]
-  rw [this]
-  exact table_well_formed u (List.mem_of_getElem? hu)
-
 /-- self-conversion through any identifier: the identity whenever the result is finite -/
 theorem table_self_identity (x y : Rat) (a : List Nat) (h : convertQ x a a = .ok (some y)) : y = x := by
   unfold convertQ convertQIn at h
   obtain ⟨i, j, hi, hj, _, hy⟩ := withPair_ok_inv units a a _ _ h
   rw [hi] at hj
   cases hj
-  exact convQ_self _ (getD_wf a i hi) x y hy.symm
+  exact convQ_self _ (resolved_unit_wf a i hi) x y hy.symm
 
 /-- there and back through any two identifiers -/
 theorem table_there_and_back (x y : Rat) (a b : List Nat) (h : convertQ x a b = .ok (some y)) :
@@ -295,7 +287,7 @@ theorem table_there_and_back (x y : Rat) (a b : List Nat) (h : convertQ x a b = 
   unfold convertQ convertQIn
   rw [withPair_resolved units b a _ j i hj hi, if_pos hc.symm]
   congr 1
-  exact convQ_there_back _ _ (getD_wf a i hi) (getD_wf b j hj) x y hy.symm
+  exact convQ_there_back _ _ (resolved_unit_wf a i hi) (resolved_unit_wf b j hj) x y hy.symm
 
 /-- A → B → C equals A → C through any three identifiers (errors included: an unresolvable or
     cross-category `c` gives the same error on both sides) -/
@@ -312,7 +304,7 @@ theorem table_triangle (x y : Rat) (a b c : List Nat) (h : convertQ x a b = .ok 
     by_cases hjk : (units.getD j default).cat = (units.getD k default).cat
     · rw [if_pos hjk, if_pos hjk]
       congr 1
-      exact convQ_triangle _ _ _ (getD_wf b j hj) x y hy.symm
+      exact convQ_triangle _ _ _ (resolved_unit_wf b j hj) x y hy.symm
     · rw [if_neg hjk, if_neg hjk]
 
 /-! ### metric prefixes -/
@@ -326,7 +318,7 @@ theorem prefix_ratio :
     ∃ nu du bu pu nv dv bv pv, u.conv = .linear nu du bu pu ∧ v.conv = .linear nv dv bv pv ∧
       coefQ nu du = coefQ nv dv * pow10 pk.2 := by
   have hchk : prefixAllOk units = true := by decide +kernel
-  have hok : units.all (fun u => convOk u.conv) = true := by decide +kernel
+  have hok := units_all_convOk
   intro u hu idu hidu pk hpk rest hrest v hv hcat hmem
   obtain ⟨nu, du, bu, pu, nv, dv, bv, pv, hcu, hcv, hr⟩ :=
     prefix_ratio_of_check units hchk u hu idu hidu pk hpk rest hrest v hv hcat hmem
